@@ -9,16 +9,53 @@ CLAIMS = {
  "C01": dict(design="§2 C01",
    text="Every catalogue declaration (validator-kind combinations x 12 integer / 2 float types x path/closure spellings x literal extremes x const_fn twins) is expanded by the macro built from /repo and try_new/new are decided by CBMC for ALL raw inputs and, for expression bounds, ALL bound values against an independent reference predicate; loop-free, so no unwinding bound. The declaration axis is enumerated, not solved.",
    note="Trusted: Kani/CBMC/cadical, rustc front end of Kani's toolchain. Assumes non-NaN float bounds; custom fns range over symbolic families pred=(bits&MASK)!=0, san=bits^K. String built-in sanitizers per DESIGN string plan."),
+ "C02": dict(design="§2 C02",
+   text="Catalogue of ~70 bound spellings / attribute layouts; which are accepted is rustc's verdict (one cargo check pass, rejected spellings satisfy the property); for every accepted spelling CBMC decides for ALL inputs that try_new's verdict equals the conjunction of the written rules with the value each bound denotes (written independently as a typed Rust expression).",
+   note="The 'cannot honour => rejected' direction is only observed, not decided. Spellings are enumerated. Brace-containing bound expressions are left out (they break the macro's generated #[cfg(test)] format string and thereby native replay)."),
  "C03": dict(design="§2 C03",
    text="TryFrom/From/Default of every catalogue declaration decided for all inputs, bounds and default values: equal to try_new/new and to the reference; invalid defaults: default() returns on no path (should_panic harness + unreachable marker).",
    note="Same trusted base as C01; From+TryFrom cannot be derived together so they are checked on twin declarations."),
+ "C04": dict(design="§2 C04",
+   text="Generated Deserialize (visitor, visit_newtype_struct, try_new/new, map_err) decided against a data-model-level stub Deserializer: one harness per (declaration, event kind), all payload values, differential oracle = inner type's own Deserialize + reference predicate; nested positions Option/[N;2]/(N,)/struct field.",
+   note="Stub models how serde_json, ron and rmp-serde drive newtype structs (deserialize_newtype_struct -> visit_newtype_struct(self)); byte-level parsers of the formats are trusted. Event KIND is concrete per harness (a symbolic kind does not finish); 128-bit events only for 128-bit targets."),
+ "C06": dict(design="§2 C06",
+   text="Integers: real core::num parser on ALL ASCII byte strings of length <= 4 (quick) / 5 (thorough), oracle inner.parse() + reference. Floats and other/generic inner types: the inner FromStr is a nondeterministic stub (any value incl. NaN/inf/-0 or any error) that records the text it is handed, so the composition parse->constructor->Parse/Validate is decided for every parse outcome.",
+   note="-Z stubbing of <f32|f64 as FromStr>::from_str; which text yields which float is trusted core (dec2flt out of reach). Natively (replay) the real parsers run."),
+ "C07": dict(design="§2 C07",
+   text="Every permutation (thorough; a sample in quick) of every validator subset per numeric type: the error variant returned equals the first rule, in written order, violated by the sanitized value, for ALL inputs and ALL bound values incl. contradictory bounds; wildcard-free match pins the enum shape; custom with/error returns the user's error value unchanged.",
+   note="A missing/extra variant shows as BUILD-FAILED (exit 2), not as a VIOLATION. String validators: see C01 string section."),
+ "C08": dict(design="§2 C08", engine="M",
+   text="PARTIAL: the macro's validation layer (trait admissibility tables of the 4 families, From-xor-TryFrom, numeric bound consistency, duplicates, len_char_min/max, lowercase+uppercase, inner-field visibility) is called directly (mirror crate #[path]-including /repo/nutype_macros/src) with symbolic configurations and literal values, against an independent reference table. The parse layer (token streams) and the generated #[test]s are NOT covered.",
+   note="Rejection is observed by stubbing syn::Error::new. Needs the cfg(nutype_verif) hooks. A change confined to the parse layer (attribute grammar, with/error pairing, feature gates, foreign attributes) is not detected."),
+ "C09": dict(design="§2 C09",
+   text="Integers: generated Arbitrary + real arbitrary::Unstructured::int_in_range decided for ALL byte buffers (<= min(2n, n+2) bytes incl. empty) and ALL bounds (64/128-bit: valid range <= 2^16) - no panic, value valid. Floats: all buffers <= 2n bytes; one-sided bounds symbolic in the benign region |b|<=16, two-sided bounds from a catalogue of concrete pairs; other/generic: inner arbitrary + new. Five genuine float defects are recorded as known findings with region-restricted twin harnesses.",
+   note="String Arbitrary is not covered yet (heap String of symbolic length). Float bound values outside the benign region and outside the known-finding regions are not explored. Quick tier assumes the first drawn float passes the NaN/inf re-draw condition (thorough runs the 1000-step mangling loop as best effort)."),
+ "C10": dict(design="§2 C10",
+   text="Recording Serializer: for ALL obtainable values, serialize() is exactly one serialize_newtype_struct(<declared name>, &inner) around the inner value's own event; the recorded event fed to the C04 stub Deserializer yields the same stored bits. Numeric families, struct/Option/tuple inner types, generic newtype name.",
+   note="'Byte-identical in JSON/MessagePack' follows from those formats' documented newtype handling (trusted); real encoders/decoders not executed."),
+ "C12": dict(design="§2 C12",
+   text="finite float newtypes: for ALL triples of bit patterns and ALL non-NaN bounds, obtainable values are finite, == reflexive, cmp antisymmetric/transitive, agrees with partial_cmp of the inner floats and with ==, never panics; NaN/inf unobtainable through try_new, TryFrom, Default (symbolic default) and Deserialize (stub events).",
+   note="FromStr and Arbitrary entry points for finite declarations are decided in C06 / C09. slice::sort not executed."),
+ "C13": dict(design="§2 C13",
+   text="For ALL pairs of obtainable values: AsRef/Deref/Borrow/Into/Clone/Copy expose the stored value; ==, partial_cmp, cmp equal the inner ones; Hash feeds a recording Hasher the same call sequence as the inner value and as the Borrow'ed form; Display hands the caller's Formatter (width/precision/flags) and the value to the inner Display (recording inner type); IntoIterator by value/by ref.",
+   note="Integer/float Display run core::fmt::num/flt2dec: outside reach, checked on a harness-defined inner Display instead. Strings: see string section."),
+ "C14": dict(design="§2 C14",
+   text="forall-exists via Skolem witness: for ALL bounds (valid range <= 2^16 elements for >16-bit types) and ALL targets t in the valid range, arbitrary() on the witness bytes (big-endian t-min in the k bytes int_in_range consumes) returns t. Expression spellings with low-precedence operators included. Natively the replay confirms by exhaustive enumeration that NO input yields t.",
+   note="Witness encodes arbitrary 1.3.2's byte order (version pinned by /repo/Cargo.lock)."),
+ "C16": dict(design="§2 C16",
+   text="Native step prints to_string() of every bound-violation variant of a literal-bound catalogue (and the serde/FromStr embeddings, compared verbatim); a fixed phrase table parses (type name, relation, bound); per variant CBMC decides for ALL values (all lengths 0..N+2 for strings) that the stated relation holds exactly for the accepted values.",
+   note="The phrase table is part of the claim. Expression-valued bounds' formatting is outside reach. One wording defect (float less_or_equal) is a known finding pinned by the existing test suite."),
 }
 NA = {
  "C05": "verdict is rustc's accept/reject of client programs and the shape of the expansion; no symbolic input, nothing for a solver to decide (DESIGN §2 C05)",
  "C15": "verdict is whether a #![no_std] crate builds: a name-resolution fact with no symbolic input; Kani always links std (DESIGN §2 C15)",
 }
+SKIP = set()
 checks = []
+PENDING = {"C08"}
 for pid, c in sorted(CLAIMS.items()):
+    if pid in PENDING:
+        continue
     checks.append({
         "property_id": pid,
         "quick_cmd": "./check %s --tier quick" % pid,
@@ -32,17 +69,21 @@ for pid, c in sorted(CLAIMS.items()):
     })
 na = []
 for p in props:
-    if p["id"] in CLAIMS:
+    if p["id"] in CLAIMS and p["id"] not in PENDING:
+        continue
+    if p["id"] in SKIP:
         continue
     na.append({"property_id": p["id"], "reason": NA.get(p["id"], "check not built yet (work in progress)")})
 m = {
  "version": 1,
  "setup_cmd": "true",
  "hooks": {"guard": "nutype_verif", "enable": "Engine G needs no hooks. Engine M (macro_core mirror crate) sets --cfg nutype_verif from its own build.rs",
-           "baseline_off_cmd": "cd /repo && cargo test --workspace --no-fail-fast --offline", "source_commits": [], "add_only": True},
+           "baseline_off_cmd": "cd /repo && cargo test --workspace --no-fail-fast --offline", "source_commits": ["525179a"], "add_only": True},
  "engines": [
    {"name": "G", "path": "/verif/harness/gen_proofs", "serves_properties": sorted(k for k, c in CLAIMS.items() if c.get("engine", "G") == "G"),
     "kind_free_text": "out-of-tree Kani harness crate with a path dependency on /repo/nutype: the real proc-macro is rebuilt from the working tree and expands every declaration; CBMC decides the expanded code"},
+   {"name": "M", "path": "/verif/harness/macro_core", "serves_properties": sorted(k for k, c in CLAIMS.items() if c.get("engine") == "M"),
+    "kind_free_text": "mirror lib crate #[path]-including the module trees of /repo/nutype_macros/src (hooks on via its build.rs); Kani harnesses call the macro's validation functions with symbolic configurations"},
  ],
  "checks": checks,
  "notes": "All checks: ./check <ID> --tier quick|thorough. Exit 0 held / 1 VIOLATION (natively replayed) / 2 inconclusive. See DESIGN.md.",
